@@ -760,13 +760,18 @@ fn kind_rank9(rng: &mut Rng, out: &mut Out, id: &str, tier: &str) {
     let via_trait = rng.chance(1, 2);
     out.case(id);
     out.data(&words_of(&bits));
-    let x = if via_trait {
-        Rank9Sel::build_from_bits(bits.iter().cloned(), rng.chance(1, 2), h1, h0).unwrap()
+    let wr_flag = rng.chance(1, 2);
+    let built = guard(|| if via_trait {
+        Rank9Sel::build_from_bits(bits.iter().cloned(), wr_flag, h1, h0).unwrap()
     } else {
         let mut x = Rank9Sel::from_bits(bits.iter().cloned());
         if h1 { x = x.select1_hints(); }
         if h0 { x = x.select0_hints(); }
         x
+    });
+    let x = match built {
+        Some(x) => x,
+        None => { out.op(1002, &[len, h1 as usize, h0 as usize], "P".into(), "Rank9Sel construction panicked"); out.end(); return; }
     };
     out.op(1002, &[len, h1 as usize, h0 as usize], "K".into(), if via_trait { "Rank9Sel via Build" } else { "Rank9Sel via builder methods" });
     if len >= 1024 { out.stat("r9:second-hint-chunk"); }
@@ -793,13 +798,18 @@ fn kind_darray(rng: &mut Rng, out: &mut Out, id: &str, tier: &str) {
     let via_trait = rng.chance(1, 2);
     out.case(id);
     out.data(&words_of(&bits));
-    let x = if via_trait {
-        DArray::build_from_bits(bits.iter().cloned(), wr, rng.chance(1, 2), ws0).unwrap()
+    let s1_flag = rng.chance(1, 2);
+    let built = guard(|| if via_trait {
+        DArray::build_from_bits(bits.iter().cloned(), wr, s1_flag, ws0).unwrap()
     } else {
         let mut x = DArray::from_bits(bits.iter().cloned());
         if wr { x = x.enable_rank(); }
         if ws0 { x = x.enable_select0(); }
         x
+    });
+    let x = match built {
+        Some(x) => x,
+        None => { out.op(1003, &[len, wr as usize, ws0 as usize], "P".into(), "DArray construction panicked"); out.end(); return; }
     };
     out.op(1003, &[len, wr as usize, ws0 as usize], "K".into(), "DArray");
     if ones > 1024 { out.stat("da:multi-block"); }
@@ -825,16 +835,19 @@ fn kind_sarray(rng: &mut Rng, out: &mut Out, id: &str, tier: &str) {
     out.case(id);
     out.data(&words_of(&bits));
     let via_trait = rng.chance(1, 3);
-    let x = if via_trait {
-        // Build::build_from_bits(bits, with_rank, _, with_select0 = false); with_select0 = true is rejected
-        if SArray::build_from_bits(bits.iter().cloned(), wr, true, true).is_ok() {
-            eprintln!("HARNESS-ERROR: SArray::build_from_bits accepted with_select0");
-        }
-        SArray::build_from_bits(bits.iter().cloned(), wr, rng.chance(1, 2), false).unwrap()
+    let s1_flag = rng.chance(1, 2);
+    let built = guard(|| if via_trait {
+        // Build::build_from_bits(bits, with_rank, _, with_select0 = false); with_select0 = true must be rejected
+        if SArray::build_from_bits(bits.iter().cloned(), wr, true, true).is_ok() { panic!("with_select0 accepted"); }
+        SArray::build_from_bits(bits.iter().cloned(), wr, s1_flag, false).unwrap()
     } else {
         let mut x = SArray::from_bits(bits.iter().cloned());
         if wr { x = x.enable_rank(); }
         x
+    });
+    let x = match built {
+        Some(x) => x,
+        None => { out.op(1004, &[len, wr as usize], "P".into(), "SArray construction panicked"); out.end(); return; }
     };
     out.op(1004, &[len, wr as usize], "K".into(), if via_trait { "SArray via Build" } else { "SArray" });
     if ones == 0 { out.stat("sa:no-ones"); }
